@@ -20,7 +20,7 @@ LEVEL = "model_checking"
 RULE = (
     "all semantic maps of G1(8,2), G2(3,3,2), G2(2,4,2), G3(2,2,2,2), G3(1,2,3,2), G3(2,1,3,2), G3(2,3,1,2), G3(1,3,3,1) x backend in {default,cc3d,scipy} (partner = itself, uint8); "
     "full product backend x partner in {empty, itself, fixed other} x dtype in {uint8,int8,int16,int64,uint64} on G1(6,2), G2(2,3,2), G3(2,2,2,1) (thorough: + G3(2,2,3,2), G2(3,4,1), G2(3,3,3) x uint8); "
-    "component-count family: 1-D/2-D maps with n in {254,255,256,257,65535,65536} isolated components x semantic labels {1, 200} x backends; every map of G1(4,{-1,0,1}) with a negative value x signed dtypes must be rejected. "
+    "label-value family on the same small scope: semantic labels {255,256}, {65535,65536}, {2^32-2, 2^32-1}, {127,1} in int8..uint64 x backends; component-count family: 1-D/2-D maps with n in {254,255,256,257,65535,65536} isolated components x semantic labels {1, 200} x backends; every map of G1(4,{-1,0,1}) with a negative value x signed dtypes must be rejected. "
     "non-trivial = the three backend choices do not all give the same partition (diagonal contact or touching labels); distinct by map"
 )
 ASSUMPTIONS = ["connectivity definitions: cc3d = full (8/26) per semantic label, scipy = face (4/6) on the binary foreground, default = cc3d iff ndim >= 3"]
@@ -123,6 +123,11 @@ def run_case(case, acc):
         combos = [(b, "self", "uint8") for b in BACKENDS]
     else:
         combos = list(itertools.product(BACKENDS, ("empty", "self", "other"), DTS))
+        # semantic label VALUES around the dtype-selection boundaries (the approximator first casts to the smallest fitting uint)
+        if "combo" not in case:
+            for lm, dt in (({1: 255, 2: 256}, "int32"), ({1: 256, 2: 255}, "uint16"), ({1: 65535, 2: 65536}, "int64"), ({1: 65536, 2: 1}, "uint32"), ({1: 4294967294, 2: 4294967295}, "uint64"), ({1: 127, 2: 1}, "int8")):
+                for backend in BACKENDS:
+                    _label_value_case(acc, case, base, lm, dt, backend, parts)
     if "combo" in case:
         combos = [tuple(case["combo"])]
     other = sc.grid((i * 7 + 3) % sc.grid_count(shape, k), shape, k, dtype=np.int64)
@@ -150,6 +155,20 @@ def run_case(case, acc):
             acc.outcome(len(rm.voxsets(np.asarray(o))), backend if parts["cc3d"] != parts["scipy"] else "same")
             if good:
                 acc.ok()
+
+
+def _label_value_case(acc, case, base, lm, dt, backend, parts):
+    sem = sc.relabel(base, lm, dt)
+    c2 = {**case, "label_map": {str(k): v for k, v in lm.items()}, "dtype": dt, "backend": backend}
+    tag = f"backend={backend} dtype={dt} labels {lm} map={sem.tolist()}"
+    out = _approx(acc, c2, tag, sem, sem.copy(), backend)
+    if out is None:
+        return
+    acc.state("lv", backend, np.asarray(out.prediction_arr), dt, repr(lm))
+    good = partition_check(acc, c2, tag, sem, out.prediction_arr, out.n_prediction_instance, backend, "pred")
+    good = partition_check(acc, c2, tag, sem, out.reference_arr, out.n_reference_instance, backend, "ref") and good
+    if good:
+        acc.ok()
 
 
 def _many_map(n, dim, label):
